@@ -49,7 +49,7 @@ type RuleStat struct {
 }
 
 type Report struct {
-	seen map[string]bool
+	seen        map[string]bool
 	Prop        string
 	Tier        string
 	Level       string
